@@ -1373,8 +1373,33 @@ func (e *stageExec) do1(op []string) string {
 		return "ok"
 	case len(op) >= 2 && op[0] == "cleanstrays":
 		before := listTree(filepath.Dir(r.root))
+		// mtimes of the partials as the cleaner will see them (production threshold: 24 h)
+		young := map[string]time.Duration{}
+		filepath.Walk(r.root, func(p string, info os.FileInfo, err error) error {
+			if err == nil && !info.IsDir() && strings.HasSuffix(p, ".part") {
+				if age := time.Since(info.ModTime()); age < 24*time.Hour-time.Minute {
+					rel, _ := filepath.Rel(r.root, p)
+					young[rel] = age
+				}
+			}
+			return nil
+		})
 		r.st.VerifCleanStrays()
-		e.oracleClean(before, listTree(filepath.Dir(r.root)))
+		after := listTree(filepath.Dir(r.root))
+		var youngNames []string
+		for rel := range young {
+			youngNames = append(youngNames, rel)
+		}
+		sort.Strings(youngNames)
+		for _, rel := range youngNames {
+			if _, ok := after["stage/"+rel]; !ok {
+				if _, was := before["stage/"+rel]; was {
+					// C20: a partial written to within the last 24 hours belongs to a transfer that may be running
+					e.fails = append(e.fails, fmt.Sprintf("clean-removed-fresh: the cleaner removed %s, last written %s ago (threshold 24 h): data of a file that is still being received", esc(rel), young[rel].Round(time.Second)))
+				}
+			}
+		}
+		e.oracleClean(before, after)
 		return "ok"
 	case len(op) == 2 && op[0] == "cleancache":
 		r.st.VerifCleanCache()
